@@ -21,31 +21,31 @@ Section MapOutcome.
   Implicit Types l : list (bytes * V).
 
   Lemma map_outcome_cons_inv k v l r :
-    P.map_outcome on ((k, v) :: l) = Ok r ->
-    exists a r', on k v = Ok a /\ P.map_outcome on l = Ok r' /\ r = a :: r'.
+    Pagination.Model.map_outcome on ((k, v) :: l) = Ok r ->
+    exists a r', on k v = Ok a /\ Pagination.Model.map_outcome on l = Ok r' /\ r = a :: r'.
   Proof.
-    cbn [P.map_outcome]. destruct (on k v) as [a|cs c|]; cbn [bind]; try discriminate.
-    destruct (P.map_outcome on l) as [r'|cs c|]; cbn [bind]; try discriminate.
+    cbn [Pagination.Model.map_outcome]. destruct (on k v) as [a|cs c|]; cbn [bind]; try discriminate.
+    destruct (Pagination.Model.map_outcome on l) as [r'|cs c|]; cbn [bind]; try discriminate.
     intros [= <-]. exists a, r'. auto.
   Qed.
 
   Lemma map_outcome_cons_ok k v l a r' :
-    on k v = Ok a -> P.map_outcome on l = Ok r' -> P.map_outcome on ((k, v) :: l) = Ok (a :: r').
-  Proof. intros H1 H2. cbn [P.map_outcome]. rewrite H1. cbn [bind]. rewrite H2. reflexivity. Qed.
+    on k v = Ok a -> Pagination.Model.map_outcome on l = Ok r' -> Pagination.Model.map_outcome on ((k, v) :: l) = Ok (a :: r').
+  Proof. intros H1 H2. cbn [Pagination.Model.map_outcome]. rewrite H1. cbn [bind]. rewrite H2. reflexivity. Qed.
 
   Lemma map_outcome_app_ok l1 : forall l2 r1 r2,
-    P.map_outcome on l1 = Ok r1 -> P.map_outcome on l2 = Ok r2 ->
-    P.map_outcome on (l1 ++ l2) = Ok (r1 ++ r2).
+    Pagination.Model.map_outcome on l1 = Ok r1 -> Pagination.Model.map_outcome on l2 = Ok r2 ->
+    Pagination.Model.map_outcome on (l1 ++ l2) = Ok (r1 ++ r2).
   Proof.
     induction l1 as [|[k v] l1 IH]; intros l2 r1 r2 H1 H2.
-    - cbn [P.map_outcome] in H1. inversion H1; subst. exact H2.
+    - cbn [Pagination.Model.map_outcome] in H1. inversion H1; subst. exact H2.
     - apply map_outcome_cons_inv in H1 as [a [r' [Ha [Hr ->]]]].
       cbn [app]. apply map_outcome_cons_ok; [exact Ha|]. apply IH; assumption.
   Qed.
 
   Lemma map_outcome_app_inv l1 : forall l2 r,
-    P.map_outcome on (l1 ++ l2) = Ok r ->
-    exists r1 r2, P.map_outcome on l1 = Ok r1 /\ P.map_outcome on l2 = Ok r2 /\ r = r1 ++ r2.
+    Pagination.Model.map_outcome on (l1 ++ l2) = Ok r ->
+    exists r1 r2, Pagination.Model.map_outcome on l1 = Ok r1 /\ Pagination.Model.map_outcome on l2 = Ok r2 /\ r = r1 ++ r2.
   Proof.
     induction l1 as [|[k v] l1 IH]; intros l2 r H.
     - exists [], r. auto.
@@ -54,14 +54,14 @@ Section MapOutcome.
       exists (a :: r1), r2. split; [apply map_outcome_cons_ok; assumption|]. split; [exact H2 | reflexivity].
   Qed.
 
-  Lemma map_outcome_length l : forall r, P.map_outcome on l = Ok r -> length r = length l.
+  Lemma map_outcome_length l : forall r, Pagination.Model.map_outcome on l = Ok r -> length r = length l.
   Proof.
     induction l as [|[k v] l IH]; intros r H.
     - inversion H; reflexivity.
     - apply map_outcome_cons_inv in H as [a [r' [_ [Hr ->]]]]. cbn [length]. rewrite (IH _ Hr). reflexivity.
   Qed.
 
-  Lemma map_outcome_rev l : forall r, P.map_outcome on l = Ok r -> P.map_outcome on (rev l) = Ok (rev r).
+  Lemma map_outcome_rev l : forall r, Pagination.Model.map_outcome on l = Ok r -> Pagination.Model.map_outcome on (rev l) = Ok (rev r).
   Proof.
     induction l as [|[k v] l IH]; intros r H.
     - inversion H; reflexivity.
@@ -71,7 +71,7 @@ Section MapOutcome.
   Qed.
 
   Lemma map_outcome_firstn (n : nat) : forall l r,
-    P.map_outcome on l = Ok r -> P.map_outcome on (firstn n l) = Ok (firstn n r).
+    Pagination.Model.map_outcome on l = Ok r -> Pagination.Model.map_outcome on (firstn n l) = Ok (firstn n r).
   Proof.
     induction n as [|n IH]; intros l r H; [reflexivity|].
     destruct l as [|[k v] l].
@@ -81,7 +81,7 @@ Section MapOutcome.
   Qed.
 
   Lemma map_outcome_skipn (n : nat) : forall l r,
-    P.map_outcome on l = Ok r -> P.map_outcome on (skipn n l) = Ok (skipn n r).
+    Pagination.Model.map_outcome on l = Ok r -> Pagination.Model.map_outcome on (skipn n l) = Ok (skipn n r).
   Proof.
     induction n as [|n IH]; intros l r H; [exact H|].
     destruct l as [|[k v] l].
@@ -90,8 +90,8 @@ Section MapOutcome.
   Qed.
 
   Lemma map_outcome_visit_order (reverse : bool) l r :
-    P.map_outcome on l = Ok r ->
-    P.map_outcome on (visit_order reverse l) = Ok (if reverse then rev r else r).
+    Pagination.Model.map_outcome on l = Ok r ->
+    Pagination.Model.map_outcome on (visit_order reverse l) = Ok (if reverse then rev r else r).
   Proof. intros H. destruct reverse; cbn [visit_order]; [apply map_outcome_rev|]; exact H. Qed.
 End MapOutcome.
 
@@ -265,7 +265,7 @@ Lemma map_outcome_sub_store {A R} (sel : typed_key -> list A) (f : A -> R)
      if is_prefix pfx kk
      then exists a, sel K = [a] /\ on (skipn (length pfx) kk) v = Ok (f a)
      else sel K = []) ->
-  P.map_outcome on (sub_store pfx st) = Ok (map f (tcount sel st)).
+  Pagination.Model.map_outcome on (sub_store pfx st) = Ok (map f (tcount sel st)).
 Proof.
   intros Hall Hent. induction st as [|[kk v] r IH]; [reflexivity|].
   inversion Hall as [|? ? He Hr]; subst. destruct He as [K [HT [HW [HK _]]]]. cbn [fst] in HT, HK.
@@ -384,7 +384,7 @@ Section Listing.
   Qed.
 
   Lemma topics_sub_store_names_enc : forall o cp, encode [o] = Some cp ->
-    P.map_outcome (topic_on cp) (sub_store (GenConst.aol_topic_prefix ++ cp) st) = Ok (topics_of st o).
+    Pagination.Model.map_outcome (topic_on cp) (sub_store (GenConst.aol_topic_prefix ++ cp) st) = Ok (topics_of st o).
   Proof.
     intros o cp Hcp. rewrite topics_of_tcount, <- (map_id (tcount (sel_topic o) st)).
     apply map_outcome_sub_store; [exact Hwf | exact (topic_entry o cp Hcp)].
@@ -392,7 +392,7 @@ Section Listing.
 
   (** decoding every entry in order gives topics_of *)
   Lemma topics_sub_store_names : forall o cp, verify_address_format o = true -> partial_encode [o; []] 1 = Some cp ->
-    P.map_outcome (fun k _ => match decode_key true KTopic (cp ++ k) with
+    Pagination.Model.map_outcome (fun k _ => match decode_key true KTopic (cp ++ k) with
                               | Ok (TopicKey _ t) => Ok t
                               | Ok _ => internal
                               | Err cs c => Err cs c
@@ -458,7 +458,7 @@ Section Listing.
   Qed.
 
   Lemma writers_sub_store_names_enc : forall bech o t cp, encode [o; t] = Some cp ->
-    P.map_outcome (writer_on bech cp) (sub_store (GenConst.aol_writer_prefix ++ cp) st) =
+    Pagination.Model.map_outcome (writer_on bech cp) (sub_store (GenConst.aol_writer_prefix ++ cp) st) =
     Ok (map bech (writers_of st o t)).
   Proof.
     intros bech o t cp Hcp. rewrite writers_of_tcount.
@@ -468,7 +468,7 @@ Section Listing.
   (** decoding every entry in order gives the bech32 forms of writers_of *)
   Lemma writers_sub_store_names : forall (bech : bytes -> bytes) o t cp, verify_address_format o = true ->
     partial_encode [o; t; []] 2 = Some cp ->
-    P.map_outcome (fun k _ => match decode_key true KWriter (cp ++ k) with
+    Pagination.Model.map_outcome (fun k _ => match decode_key true KWriter (cp ++ k) with
                               | Ok (WriterKey _ _ w) => Ok (bech w)
                               | Ok _ => internal
                               | Err cs c => Err cs c
@@ -554,30 +554,30 @@ End Listing.
 (** * client-side drivers at the query level
     A client of a paginated gRPC query fetches page after page, key style (the next request carries the
     NextKey of the previous answer) or offset style (offsets 0, limit, 2*limit, ...), and stops when
-    [len(NextKey) == 0].  [drive_by_key] / [drive_by_offset] mirror [P.pages_by_key] /
-    [P.pages_by_offset] for an arbitrary query [q]. *)
+    [len(NextKey) == 0].  [drive_by_key] / [drive_by_offset] mirror [Pagination.Model.pages_by_key] /
+    [Pagination.Model.pages_by_offset] for an arbitrary query [q]. *)
 Section Drive.
   Context {R : Type}.
-  Variable q : option P.page_req -> outcome (list R * P.page_res).
+  Variable q : option Pagination.Model.page_req -> outcome (list R * Pagination.Model.page_res).
 
   Fixpoint drive_by_key (fuel : nat) (limit : N) (ct reverse : bool) (key : option bytes)
     : outcome (list R) :=
     match fuel with
-    | O => P.fuel_err
+    | O => Pagination.Model.fuel_err
     | S f =>
-        do pr <- q (Some (P.mk_page_req key 0 limit ct reverse));
-        if P.key_is_nil (P.pg_next_key (snd pr)) then Ok (fst pr)
-        else do rest <- drive_by_key f limit ct reverse (P.pg_next_key (snd pr));
+        do pr <- q (Some (Pagination.Model.mk_page_req key 0 limit ct reverse));
+        if Pagination.Model.key_is_nil (Pagination.Model.pg_next_key (snd pr)) then Ok (fst pr)
+        else do rest <- drive_by_key f limit ct reverse (Pagination.Model.pg_next_key (snd pr));
              Ok (fst pr ++ rest)
     end.
 
   Fixpoint drive_by_offset (fuel : nat) (limit : N) (ct reverse : bool) (offset : N)
     : outcome (list R) :=
     match fuel with
-    | O => P.fuel_err
+    | O => Pagination.Model.fuel_err
     | S f =>
-        do pr <- q (Some (P.mk_page_req None offset limit ct reverse));
-        if P.key_is_nil (P.pg_next_key (snd pr)) then Ok (fst pr)
+        do pr <- q (Some (Pagination.Model.mk_page_req None offset limit ct reverse));
+        if Pagination.Model.key_is_nil (Pagination.Model.pg_next_key (snd pr)) then Ok (fst pr)
         else do rest <- drive_by_offset f limit ct reverse (offset + limit)%N;
              Ok (fst pr ++ rest)
     end.
@@ -587,29 +587,29 @@ Section DriveProofs.
   Context {V R : Type}.
   Variable on : bytes -> V -> outcome R.
   Variable items : list (bytes * V).
-  Variable q : option P.page_req -> outcome (list R * P.page_res).
+  Variable q : option Pagination.Model.page_req -> outcome (list R * Pagination.Model.page_res).
   (** the query is [Paginate] over [items] with the callback [on], errors reported as Internal *)
-  Hypothesis Hq : forall req, q req = as_internal (P.paginate_with on items req).
+  Hypothesis Hq : forall req, q req = as_internal (Pagination.Model.paginate_with on items req).
 
   Lemma q_of_page req pr rs :
-    P.paginate items req = Ok pr -> P.map_outcome on (fst pr) = Ok rs -> q req = Ok (rs, snd pr).
-  Proof. intros Hp Hm. rewrite Hq. unfold P.paginate_with. rewrite Hp. cbn [bind]. rewrite Hm. reflexivity. Qed.
+    Pagination.Model.paginate items req = Ok pr -> Pagination.Model.map_outcome on (fst pr) = Ok rs -> q req = Ok (rs, snd pr).
+  Proof. intros Hp Hm. rewrite Hq. unfold Pagination.Model.paginate_with. rewrite Hp. cbn [bind]. rewrite Hm. reflexivity. Qed.
 
   (** if paging through the items collects [all], and the callback maps [all] to [names], then paging
       through the query collects [names] *)
   Lemma drive_by_key_paginate : forall fuel limit ct reverse key all names,
-    P.pages_by_key fuel items limit ct reverse key = Ok all ->
-    P.map_outcome on all = Ok names ->
+    Pagination.Model.pages_by_key fuel items limit ct reverse key = Ok all ->
+    Pagination.Model.map_outcome on all = Ok names ->
     drive_by_key q fuel limit ct reverse key = Ok names.
   Proof.
     induction fuel as [|f IH]; intros limit ct reverse key all names Hp Hm; [discriminate Hp|].
-    cbn [P.pages_by_key] in Hp. cbn [drive_by_key].
-    destruct (P.paginate items (Some (P.mk_page_req key 0 limit ct reverse))) as [pr|cs c|] eqn:Ep;
+    cbn [Pagination.Model.pages_by_key] in Hp. cbn [drive_by_key].
+    destruct (Pagination.Model.paginate items (Some (Pagination.Model.mk_page_req key 0 limit ct reverse))) as [pr|cs c|] eqn:Ep;
       try discriminate Hp.
     cbn [bind] in Hp.
-    destruct (P.key_is_nil (P.pg_next_key (snd pr))) eqn:Ek.
+    destruct (Pagination.Model.key_is_nil (Pagination.Model.pg_next_key (snd pr))) eqn:Ek.
     - inversion Hp; subst all. rewrite (q_of_page _ pr names Ep Hm). cbn [bind fst snd]. rewrite Ek. reflexivity.
-    - destruct (P.pages_by_key f items limit ct reverse (P.pg_next_key (snd pr))) as [rest|cs c|] eqn:Er;
+    - destruct (Pagination.Model.pages_by_key f items limit ct reverse (Pagination.Model.pg_next_key (snd pr))) as [rest|cs c|] eqn:Er;
         try discriminate Hp.
       cbn [bind] in Hp. inversion Hp; subst all.
       apply map_outcome_app_inv in Hm as [n1 [n2 [H1 [H2 ->]]]].
@@ -618,18 +618,18 @@ Section DriveProofs.
   Qed.
 
   Lemma drive_by_offset_paginate : forall fuel limit ct reverse offset all names,
-    P.pages_by_offset fuel items limit ct reverse offset = Ok all ->
-    P.map_outcome on all = Ok names ->
+    Pagination.Model.pages_by_offset fuel items limit ct reverse offset = Ok all ->
+    Pagination.Model.map_outcome on all = Ok names ->
     drive_by_offset q fuel limit ct reverse offset = Ok names.
   Proof.
     induction fuel as [|f IH]; intros limit ct reverse offset all names Hp Hm; [discriminate Hp|].
-    cbn [P.pages_by_offset] in Hp. cbn [drive_by_offset].
-    destruct (P.paginate items (Some (P.mk_page_req None offset limit ct reverse))) as [pr|cs c|] eqn:Ep;
+    cbn [Pagination.Model.pages_by_offset] in Hp. cbn [drive_by_offset].
+    destruct (Pagination.Model.paginate items (Some (Pagination.Model.mk_page_req None offset limit ct reverse))) as [pr|cs c|] eqn:Ep;
       try discriminate Hp.
     cbn [bind] in Hp.
-    destruct (P.key_is_nil (P.pg_next_key (snd pr))) eqn:Ek.
+    destruct (Pagination.Model.key_is_nil (Pagination.Model.pg_next_key (snd pr))) eqn:Ek.
     - inversion Hp; subst all. rewrite (q_of_page _ pr names Ep Hm). cbn [bind fst snd]. rewrite Ek. reflexivity.
-    - destruct (P.pages_by_offset f items limit ct reverse (offset + limit)) as [rest|cs c|] eqn:Er;
+    - destruct (Pagination.Model.pages_by_offset f items limit ct reverse (offset + limit)) as [rest|cs c|] eqn:Er;
         try discriminate Hp.
       cbn [bind] in Hp. inversion Hp; subst all.
       apply map_outcome_app_inv in Hm as [n1 [n2 [H1 [H2 ->]]]].
@@ -640,13 +640,13 @@ Section DriveProofs.
   Variable names : list R.
   Hypothesis Hsorted : sorted_keys items.
   Hypothesis Hnonempty : no_empty_key items.
-  Hypothesis Hnames : P.map_outcome on items = Ok names.
+  Hypothesis Hnames : Pagination.Model.map_outcome on items = Ok names.
 
   Lemma names_length : length items = length names.
   Proof. symmetry. exact (map_outcome_length on items names Hnames). Qed.
 
   Lemma drive_by_key_complete fuel limit ct reverse :
-    (0 < limit < P.two64)%N -> (N.of_nat (length names) < P.two64)%N -> (length names < fuel)%nat ->
+    (0 < limit < Pagination.Model.two64)%N -> (N.of_nat (length names) < Pagination.Model.two64)%N -> (length names < fuel)%nat ->
     drive_by_key q fuel limit ct reverse None = Ok (if reverse then rev names else names).
   Proof.
     intros Hl Hb Hf. rewrite <- names_length in Hb, Hf.
@@ -656,7 +656,7 @@ Section DriveProofs.
   Qed.
 
   Lemma drive_by_offset_complete fuel limit ct reverse :
-    (0 < limit)%N -> (N.of_nat (length names) + limit < P.two64)%N -> (length names < fuel)%nat ->
+    (0 < limit)%N -> (N.of_nat (length names) + limit < Pagination.Model.two64)%N -> (length names < fuel)%nat ->
     drive_by_offset q fuel limit ct reverse 0 = Ok (if reverse then rev names else names).
   Proof.
     intros Hl Hb Hf. rewrite <- names_length in Hb, Hf.
@@ -668,11 +668,11 @@ Section DriveProofs.
   (** one offset-style page is the corresponding slice of the listing; with count_total the reported
       total is the size of the listing *)
   Lemma q_offset_page offset limit ct reverse :
-    (0 < limit)%N -> (offset + limit < P.two64)%N -> (N.of_nat (length names) < P.two64)%N ->
-    q (Some (P.mk_page_req None offset limit ct reverse)) =
+    (0 < limit)%N -> (offset + limit < Pagination.Model.two64)%N -> (N.of_nat (length names) < Pagination.Model.two64)%N ->
+    q (Some (Pagination.Model.mk_page_req None offset limit ct reverse)) =
     Ok (firstn (N.to_nat limit) (skipn (N.to_nat offset) (if reverse then rev names else names)),
-        P.mk_page_res
-          (P.next_key_of (skipn (N.to_nat limit) (skipn (N.to_nat offset) (visit_order reverse items))))
+        Pagination.Model.mk_page_res
+          (Pagination.Model.next_key_of (skipn (N.to_nat limit) (skipn (N.to_nat offset) (visit_order reverse items))))
           (if ct then N.of_nat (length names) else 0%N)).
   Proof.
     intros Hl Hol Hb. rewrite <- names_length in *.
@@ -689,21 +689,21 @@ End DriveProofs.
 Fixpoint topics_by_key (fuel : nat) (unbech : bytes -> option bytes) (st : aol_state) (owner_s : bytes)
          (limit : N) (ct reverse : bool) (key : option bytes) : outcome (list bytes) :=
   match fuel with
-  | O => P.fuel_err
+  | O => Pagination.Model.fuel_err
   | S f =>
-      do pr <- q_topics unbech st owner_s (Some (P.mk_page_req key 0 limit ct reverse));
-      if P.key_is_nil (P.pg_next_key (snd pr)) then Ok (fst pr)
-      else do rest <- topics_by_key f unbech st owner_s limit ct reverse (P.pg_next_key (snd pr));
+      do pr <- q_topics unbech st owner_s (Some (Pagination.Model.mk_page_req key 0 limit ct reverse));
+      if Pagination.Model.key_is_nil (Pagination.Model.pg_next_key (snd pr)) then Ok (fst pr)
+      else do rest <- topics_by_key f unbech st owner_s limit ct reverse (Pagination.Model.pg_next_key (snd pr));
            Ok (fst pr ++ rest)
   end.
 
 Fixpoint topics_by_offset (fuel : nat) (unbech : bytes -> option bytes) (st : aol_state) (owner_s : bytes)
          (limit : N) (ct reverse : bool) (offset : N) : outcome (list bytes) :=
   match fuel with
-  | O => P.fuel_err
+  | O => Pagination.Model.fuel_err
   | S f =>
-      do pr <- q_topics unbech st owner_s (Some (P.mk_page_req None offset limit ct reverse));
-      if P.key_is_nil (P.pg_next_key (snd pr)) then Ok (fst pr)
+      do pr <- q_topics unbech st owner_s (Some (Pagination.Model.mk_page_req None offset limit ct reverse));
+      if Pagination.Model.key_is_nil (Pagination.Model.pg_next_key (snd pr)) then Ok (fst pr)
       else do rest <- topics_by_offset f unbech st owner_s limit ct reverse (offset + limit)%N;
            Ok (fst pr ++ rest)
   end.
@@ -712,11 +712,11 @@ Fixpoint writers_by_key (fuel : nat) (unbech : bytes -> option bytes) (bech : by
          (st : aol_state) (owner_s topic : bytes)
          (limit : N) (ct reverse : bool) (key : option bytes) : outcome (list bytes) :=
   match fuel with
-  | O => P.fuel_err
+  | O => Pagination.Model.fuel_err
   | S f =>
-      do pr <- q_writers unbech bech st owner_s topic (Some (P.mk_page_req key 0 limit ct reverse));
-      if P.key_is_nil (P.pg_next_key (snd pr)) then Ok (fst pr)
-      else do rest <- writers_by_key f unbech bech st owner_s topic limit ct reverse (P.pg_next_key (snd pr));
+      do pr <- q_writers unbech bech st owner_s topic (Some (Pagination.Model.mk_page_req key 0 limit ct reverse));
+      if Pagination.Model.key_is_nil (Pagination.Model.pg_next_key (snd pr)) then Ok (fst pr)
+      else do rest <- writers_by_key f unbech bech st owner_s topic limit ct reverse (Pagination.Model.pg_next_key (snd pr));
            Ok (fst pr ++ rest)
   end.
 
@@ -724,10 +724,10 @@ Fixpoint writers_by_offset (fuel : nat) (unbech : bytes -> option bytes) (bech :
          (st : aol_state) (owner_s topic : bytes)
          (limit : N) (ct reverse : bool) (offset : N) : outcome (list bytes) :=
   match fuel with
-  | O => P.fuel_err
+  | O => Pagination.Model.fuel_err
   | S f =>
-      do pr <- q_writers unbech bech st owner_s topic (Some (P.mk_page_req None offset limit ct reverse));
-      if P.key_is_nil (P.pg_next_key (snd pr)) then Ok (fst pr)
+      do pr <- q_writers unbech bech st owner_s topic (Some (Pagination.Model.mk_page_req None offset limit ct reverse));
+      if Pagination.Model.key_is_nil (Pagination.Model.pg_next_key (snd pr)) then Ok (fst pr)
       else do rest <- writers_by_offset f unbech bech st owner_s topic limit ct reverse (offset + limit)%N;
            Ok (fst pr ++ rest)
   end.
@@ -737,9 +737,9 @@ Lemma topics_by_key_drive unbech st owner_s limit ct reverse : forall fuel key,
   drive_by_key (q_topics unbech st owner_s) fuel limit ct reverse key.
 Proof.
   induction fuel as [|f IH]; intros key; [reflexivity|]. cbn [topics_by_key drive_by_key].
-  destruct (q_topics unbech st owner_s (Some (P.mk_page_req key 0 limit ct reverse))) as [pr|cs c|];
+  destruct (q_topics unbech st owner_s (Some (Pagination.Model.mk_page_req key 0 limit ct reverse))) as [pr|cs c|];
     cbn [bind]; try reflexivity.
-  destruct (P.key_is_nil (P.pg_next_key (snd pr))); [reflexivity|]. rewrite IH. reflexivity.
+  destruct (Pagination.Model.key_is_nil (Pagination.Model.pg_next_key (snd pr))); [reflexivity|]. rewrite IH. reflexivity.
 Qed.
 
 Lemma topics_by_offset_drive unbech st owner_s limit ct reverse : forall fuel offset,
@@ -747,9 +747,9 @@ Lemma topics_by_offset_drive unbech st owner_s limit ct reverse : forall fuel of
   drive_by_offset (q_topics unbech st owner_s) fuel limit ct reverse offset.
 Proof.
   induction fuel as [|f IH]; intros offset; [reflexivity|]. cbn [topics_by_offset drive_by_offset].
-  destruct (q_topics unbech st owner_s (Some (P.mk_page_req None offset limit ct reverse))) as [pr|cs c|];
+  destruct (q_topics unbech st owner_s (Some (Pagination.Model.mk_page_req None offset limit ct reverse))) as [pr|cs c|];
     cbn [bind]; try reflexivity.
-  destruct (P.key_is_nil (P.pg_next_key (snd pr))); [reflexivity|]. rewrite IH. reflexivity.
+  destruct (Pagination.Model.key_is_nil (Pagination.Model.pg_next_key (snd pr))); [reflexivity|]. rewrite IH. reflexivity.
 Qed.
 
 Lemma writers_by_key_drive unbech bech st owner_s topic limit ct reverse : forall fuel key,
@@ -757,9 +757,9 @@ Lemma writers_by_key_drive unbech bech st owner_s topic limit ct reverse : foral
   drive_by_key (q_writers unbech bech st owner_s topic) fuel limit ct reverse key.
 Proof.
   induction fuel as [|f IH]; intros key; [reflexivity|]. cbn [writers_by_key drive_by_key].
-  destruct (q_writers unbech bech st owner_s topic (Some (P.mk_page_req key 0 limit ct reverse))) as [pr|cs c|];
+  destruct (q_writers unbech bech st owner_s topic (Some (Pagination.Model.mk_page_req key 0 limit ct reverse))) as [pr|cs c|];
     cbn [bind]; try reflexivity.
-  destruct (P.key_is_nil (P.pg_next_key (snd pr))); [reflexivity|]. rewrite IH. reflexivity.
+  destruct (Pagination.Model.key_is_nil (Pagination.Model.pg_next_key (snd pr))); [reflexivity|]. rewrite IH. reflexivity.
 Qed.
 
 Lemma writers_by_offset_drive unbech bech st owner_s topic limit ct reverse : forall fuel offset,
@@ -767,16 +767,16 @@ Lemma writers_by_offset_drive unbech bech st owner_s topic limit ct reverse : fo
   drive_by_offset (q_writers unbech bech st owner_s topic) fuel limit ct reverse offset.
 Proof.
   induction fuel as [|f IH]; intros offset; [reflexivity|]. cbn [writers_by_offset drive_by_offset].
-  destruct (q_writers unbech bech st owner_s topic (Some (P.mk_page_req None offset limit ct reverse))) as [pr|cs c|];
+  destruct (q_writers unbech bech st owner_s topic (Some (Pagination.Model.mk_page_req None offset limit ct reverse))) as [pr|cs c|];
     cbn [bind]; try reflexivity.
-  destruct (P.key_is_nil (P.pg_next_key (snd pr))); [reflexivity|]. rewrite IH. reflexivity.
+  destruct (Pagination.Model.key_is_nil (Pagination.Model.pg_next_key (snd pr))); [reflexivity|]. rewrite IH. reflexivity.
 Qed.
 
 (** * the queries are [Paginate] over the owner's / topic's sub-store *)
 Lemma q_topics_as_paginate unbech st owner_s o cp req :
   unbech owner_s = Some o -> encode [o] = Some cp ->
   q_topics unbech st owner_s req =
-  as_internal (P.paginate_with (topic_on cp) (sub_store (GenConst.aol_topic_prefix ++ cp) st) req).
+  as_internal (Pagination.Model.paginate_with (topic_on cp) (sub_store (GenConst.aol_topic_prefix ++ cp) st) req).
 Proof.
   intros Hu Hcp. unfold q_topics. rewrite Hu.
   change (partial_encode [o; []] 1) with (encode [o]). rewrite Hcp. reflexivity.
@@ -785,7 +785,7 @@ Qed.
 Lemma q_writers_as_paginate unbech bech st owner_s o t cp req :
   unbech owner_s = Some o -> encode [o; t] = Some cp ->
   q_writers unbech bech st owner_s t req =
-  as_internal (P.paginate_with (writer_on bech cp) (sub_store (GenConst.aol_writer_prefix ++ cp) st) req).
+  as_internal (Pagination.Model.paginate_with (writer_on bech cp) (sub_store (GenConst.aol_writer_prefix ++ cp) st) req).
 Proof.
   intros Hu Hcp. unfold q_writers. rewrite Hu.
   change (partial_encode [o; t; []] 2) with (encode [o; t]). rewrite Hcp. reflexivity.
@@ -813,8 +813,8 @@ Qed.
 
 (** * C13: paging through Query/Topics and Query/Writers yields exactly the listing, each entry once *)
 Theorem topics_paging_by_key_complete : forall unbech st owner_s o limit ct reverse fuel,
-  Inv st -> unbech_wf unbech -> unbech owner_s = Some o -> (0 < limit < P.two64)%N ->
-  (N.of_nat (length (topics_of st o)) < P.two64)%N -> (length (topics_of st o) < fuel)%nat ->
+  Inv st -> unbech_wf unbech -> unbech owner_s = Some o -> (0 < limit < Pagination.Model.two64)%N ->
+  (N.of_nat (length (topics_of st o)) < Pagination.Model.two64)%N -> (length (topics_of st o) < fuel)%nat ->
   topics_by_key fuel unbech st owner_s limit ct reverse None =
   Ok (if reverse then rev (topics_of st o) else topics_of st o).
 Proof.
@@ -830,7 +830,7 @@ Qed.
 
 Theorem topics_paging_by_offset_complete : forall unbech st owner_s o limit ct reverse fuel,
   Inv st -> unbech_wf unbech -> unbech owner_s = Some o -> (0 < limit)%N ->
-  (N.of_nat (length (topics_of st o)) + limit < P.two64)%N -> (length (topics_of st o) < fuel)%nat ->
+  (N.of_nat (length (topics_of st o)) + limit < Pagination.Model.two64)%N -> (length (topics_of st o) < fuel)%nat ->
   topics_by_offset fuel unbech st owner_s limit ct reverse 0 =
   Ok (if reverse then rev (topics_of st o) else topics_of st o).
 Proof.
@@ -847,8 +847,8 @@ Qed.
 (** [length t <= 255] is needed: for a longer topic name Query/Writers answers Internal
     ([q_writers_long_topic]) although the listing is empty *)
 Theorem writers_paging_by_key_complete : forall unbech bech st owner_s o t limit ct reverse fuel,
-  Inv st -> unbech_wf unbech -> unbech owner_s = Some o -> length t <= 255 -> (0 < limit < P.two64)%N ->
-  (N.of_nat (length (writers_of st o t)) < P.two64)%N -> (length (writers_of st o t) < fuel)%nat ->
+  Inv st -> unbech_wf unbech -> unbech owner_s = Some o -> length t <= 255 -> (0 < limit < Pagination.Model.two64)%N ->
+  (N.of_nat (length (writers_of st o t)) < Pagination.Model.two64)%N -> (length (writers_of st o t) < fuel)%nat ->
   writers_by_key fuel unbech bech st owner_s t limit ct reverse None =
   Ok (if reverse then rev (map bech (writers_of st o t)) else map bech (writers_of st o t)).
 Proof.
@@ -865,7 +865,7 @@ Qed.
 
 Theorem writers_paging_by_offset_complete : forall unbech bech st owner_s o t limit ct reverse fuel,
   Inv st -> unbech_wf unbech -> unbech owner_s = Some o -> length t <= 255 -> (0 < limit)%N ->
-  (N.of_nat (length (writers_of st o t)) + limit < P.two64)%N -> (length (writers_of st o t) < fuel)%nat ->
+  (N.of_nat (length (writers_of st o t)) + limit < Pagination.Model.two64)%N -> (length (writers_of st o t) < fuel)%nat ->
   writers_by_offset fuel unbech bech st owner_s t limit ct reverse 0 =
   Ok (if reverse then rev (map bech (writers_of st o t)) else map bech (writers_of st o t)).
 Proof.
@@ -879,3 +879,115 @@ Proof.
   - exact (proj2 (writers_sub_store_sorted st HI o t cp Hcp)).
   - exact (writers_sub_store_names_enc st HI bech o t cp Hcp).
 Qed.
+
+(** * one offset-style page is the corresponding slice of the listing *)
+Theorem q_topics_page : forall unbech st owner_s o offset limit ct reverse,
+  Inv st -> unbech_wf unbech -> unbech owner_s = Some o ->
+  (0 < limit)%N -> (offset + limit < Pagination.Model.two64)%N -> (N.of_nat (length (topics_of st o)) < Pagination.Model.two64)%N ->
+  exists next,
+    q_topics unbech st owner_s (Some (Pagination.Model.mk_page_req None offset limit ct reverse)) =
+    Ok (firstn (N.to_nat limit) (skipn (N.to_nat offset) (if reverse then rev (topics_of st o) else topics_of st o)),
+        Pagination.Model.mk_page_res next (if ct then N.of_nat (length (topics_of st o)) else 0%N)).
+Proof.
+  intros unbech st owner_s o offset limit ct reverse HI Hub Hu Hl Hol Hb.
+  destruct (encode_owner o (Hub _ _ Hu)) as [cp Hcp]. eexists.
+  apply (q_offset_page (topic_on cp) (sub_store (GenConst.aol_topic_prefix ++ cp) st)); try assumption.
+  - intros req. exact (q_topics_as_paginate unbech st owner_s o cp req Hu Hcp).
+  - exact (topics_sub_store_names_enc st HI o cp Hcp).
+Qed.
+
+(** with count_total the reported total of an offset-style request is the number of the owner's topics *)
+Theorem topics_total : forall unbech st owner_s o offset limit reverse,
+  Inv st -> unbech_wf unbech -> unbech owner_s = Some o ->
+  (0 < limit)%N -> (offset + limit < Pagination.Model.two64)%N -> (N.of_nat (length (topics_of st o)) < Pagination.Model.two64)%N ->
+  exists names next,
+    q_topics unbech st owner_s (Some (Pagination.Model.mk_page_req None offset limit true reverse)) =
+    Ok (names, Pagination.Model.mk_page_res next (N.of_nat (length (topics_of st o)))).
+Proof.
+  intros unbech st owner_s o offset limit reverse HI Hub Hu Hl Hol Hb.
+  destruct (q_topics_page unbech st owner_s o offset limit true reverse HI Hub Hu Hl Hol Hb) as [next E].
+  eexists. exists next. exact E.
+Qed.
+
+Theorem q_writers_page : forall unbech bech st owner_s o t offset limit ct reverse,
+  Inv st -> unbech_wf unbech -> unbech owner_s = Some o -> length t <= 255 ->
+  (0 < limit)%N -> (offset + limit < Pagination.Model.two64)%N -> (N.of_nat (length (writers_of st o t)) < Pagination.Model.two64)%N ->
+  exists next,
+    q_writers unbech bech st owner_s t (Some (Pagination.Model.mk_page_req None offset limit ct reverse)) =
+    Ok (firstn (N.to_nat limit) (skipn (N.to_nat offset)
+          (if reverse then rev (map bech (writers_of st o t)) else map bech (writers_of st o t))),
+        Pagination.Model.mk_page_res next (if ct then N.of_nat (length (writers_of st o t)) else 0%N)).
+Proof.
+  intros unbech bech st owner_s o t offset limit ct reverse HI Hub Hu Ht Hl Hol Hb.
+  destruct (encode_owner_topic o t (Hub _ _ Hu) Ht) as [cp Hcp]. eexists.
+  rewrite <- (map_length bech (writers_of st o t)).
+  apply (q_offset_page (writer_on bech cp) (sub_store (GenConst.aol_writer_prefix ++ cp) st));
+    try (rewrite map_length; assumption); try assumption.
+  - intros req. exact (q_writers_as_paginate unbech bech st owner_s o t cp req Hu Hcp).
+  - exact (writers_sub_store_names_enc st HI bech o t cp Hcp).
+Qed.
+
+Theorem writers_total : forall unbech bech st owner_s o t offset limit reverse,
+  Inv st -> unbech_wf unbech -> unbech owner_s = Some o -> length t <= 255 ->
+  (0 < limit)%N -> (offset + limit < Pagination.Model.two64)%N -> (N.of_nat (length (writers_of st o t)) < Pagination.Model.two64)%N ->
+  exists names next,
+    q_writers unbech bech st owner_s t (Some (Pagination.Model.mk_page_req None offset limit true reverse)) =
+    Ok (names, Pagination.Model.mk_page_res next (N.of_nat (length (writers_of st o t)))).
+Proof.
+  intros unbech bech st owner_s o t offset limit reverse HI Hub Hu Ht Hl Hol Hb.
+  destruct (q_writers_page unbech bech st owner_s o t offset limit true reverse HI Hub Hu Ht Hl Hol Hb) as [next E].
+  eexists. exists next. exact E.
+Qed.
+
+(** * no cross-talk, stated on the answers: whatever a complete walk returns belongs to the asked
+      owner / topic, and everything that belongs to it is returned *)
+Corollary topics_paging_exact : forall unbech st owner_s o limit ct reverse fuel,
+  Inv st -> unbech_wf unbech -> unbech owner_s = Some o -> (0 < limit < Pagination.Model.two64)%N ->
+  (N.of_nat (length (topics_of st o)) < Pagination.Model.two64)%N -> (length (topics_of st o) < fuel)%nat ->
+  exists out, topics_by_key fuel unbech st owner_s limit ct reverse None = Ok out /\
+              NoDup out /\ forall t, In t out <-> has_key st (TopicKey o t) = true.
+Proof.
+  intros unbech st owner_s o limit ct reverse fuel HI Hub Hu Hl Hb Hf.
+  eexists. split; [apply (topics_paging_by_key_complete unbech st owner_s o); assumption|].
+  pose proof (topics_of_NoDup st HI o) as ND.
+  split.
+  - destruct reverse; [apply NoDup_rev|]; exact ND.
+  - intros t. rewrite <- (topics_of_spec st HI o t (Hub _ _ Hu)).
+    destruct reverse; [symmetry; apply in_rev | reflexivity].
+Qed.
+
+Corollary writers_paging_exact : forall unbech bech st owner_s o t limit ct reverse fuel,
+  Inv st -> unbech_wf unbech -> unbech owner_s = Some o -> length t <= 255 -> (0 < limit < Pagination.Model.two64)%N ->
+  (N.of_nat (length (writers_of st o t)) < Pagination.Model.two64)%N -> (length (writers_of st o t) < fuel)%nat ->
+  exists ws, writers_by_key fuel unbech bech st owner_s t limit ct reverse None =
+               Ok (map bech (if reverse then rev ws else ws)) /\
+             NoDup ws /\
+             forall w, verify_address_format w = true -> (In w ws <-> has_key st (WriterKey o t w) = true).
+Proof.
+  intros unbech bech st owner_s o t limit ct reverse fuel HI Hub Hu Ht Hl Hb Hf.
+  exists (writers_of st o t). split.
+  - rewrite (writers_paging_by_key_complete unbech bech st owner_s o t limit ct reverse fuel); try assumption.
+    destruct reverse; [rewrite map_rev|]; reflexivity.
+  - split; [exact (writers_of_NoDup st HI o t)|].
+    intros w Vw. exact (writers_of_spec st HI o t w (Hub _ _ Hu) Vw).
+Qed.
+
+Print Assumptions topics_paging_by_key_complete.
+Print Assumptions topics_paging_by_offset_complete.
+Print Assumptions writers_paging_by_key_complete.
+Print Assumptions writers_paging_by_offset_complete.
+Print Assumptions topics_sub_store_spec.
+Print Assumptions writers_sub_store_spec.
+Print Assumptions topics_sub_store_sorted.
+Print Assumptions topics_sub_store_names.
+Print Assumptions writers_sub_store_names.
+Print Assumptions topics_of_spec.
+Print Assumptions topics_of_NoDup.
+Print Assumptions writers_of_spec.
+Print Assumptions writers_of_NoDup.
+Print Assumptions topics_total.
+Print Assumptions writers_total.
+Print Assumptions q_topics_page.
+Print Assumptions q_writers_page.
+Print Assumptions topics_paging_exact.
+Print Assumptions writers_paging_exact.
